@@ -1,7 +1,14 @@
 //! C20: any stack of the thirteen layers over a contract-checking inner service, with a `Tap` at
 //! every service boundary that logs the Tower-contract events (`clone`, `poll_ready`, `call`).
 //!
-//! header: `stack layers=<outermost,…,innermost> inner=strict|climit|buffer [ready=<script>] [cl=<n>] [lp=<mask>]`
+//! header: `stack layers=<outermost,…,innermost> inner=strict|climit|buffer [ready=<script>] [rec=<ms>] [cl=<n>] [lp=<mask>]
+//!          [ls=<mask> lsms=<ms>] [lq=<n> lqinner=<lat:out>]`
+//! `rec=<ms>`: every instance of the scripted inner service answers `Pending` to `poll_ready` for that long after a call
+//! (time-based, with a timer wake-up; clones start recovered) — a retry / reconnect attempt must wait for it;
+//! with `recall=1` the whole service recovers: after a call on any instance every instance, fresh clones included,
+//! is pending for that long (the layers leave a fresh clone behind with every call, which a per-instance recovery never meets).
+//! `lq=<n>`: the completion listeners of the outermost layer make up to n probe calls (see `Prober`); `manual probes`
+//! polls unfinished probes once, `probe probes` reports every probe (`presult <k> <outcome> twin=<outcome>`).
 //! boundary `b0` is the one the harness drives, `b<n>` the one of the inner service.
 //! log:  `b<j> clone <src> <new>` · `b<j> poll <i> ready|pending|err` · `b<j> call <i> <tag>`
 //! Every boundary event is also recorded with `world::obs("ev", …)` so the model driver replays it.
@@ -9,6 +16,7 @@
 //! layer names (non-triggering configurations unless the name says otherwise):
 //!   bulkhead ratelimiter circuit timelimiter timelimiter_nocancel retry cache fallback hedge hedge1
 //!   hedge_fire hedge_parallel reconnect adaptive coalesce executor chaos
+//!   (+ circuit_slow; bulkhead1 = one slot, full is rejected at once; bulkhead1w = one slot, wait at most 10 ms)
 //! `retry` / `reconnect` re-issue the request on errors whose text contains `ierr1`; `hedge_fire`
 //! starts a second attempt 5 ms after the first, `hedge_parallel` starts three attempts at once;
 //! `hedge` (2 attempts, 1 h delay) waits for its hedge when the primary fails, `hedge1` has one attempt.
@@ -29,9 +37,10 @@ use std::collections::VecDeque;
 use std::future::Future;
 use std::panic::{catch_unwind, AssertUnwindSafe};
 use std::pin::Pin;
-use std::sync::atomic::{AtomicU64, Ordering};
+use std::collections::BTreeSet;
+use std::sync::atomic::{AtomicBool, AtomicU64, Ordering};
 use std::sync::{Arc, Mutex};
-use std::task::{Context, Poll};
+use std::task::{Context, Poll, Waker};
 use std::time::Duration;
 use tower::util::BoxCloneService;
 use tower::{Layer, Service, ServiceExt};
@@ -59,6 +68,11 @@ pub struct Tap<S> {
     b: usize,
     id: u64,
     sh: Arc<TapShared>,
+    /// instant (ns in the case) of this instance's last logged `pending` answer not followed by another answer or a
+    /// call: a further `pending` of the same instance at the same instant is a stutter (the caller re-polling while
+    /// time stands still) and is not logged again — it changes neither the contract monitor nor the layer automaton
+    /// (a pending poll only clears the "just happened" registers, which the first one already did)
+    last_pending: Option<u64>,
 }
 fn ev(sh: &TapShared, b: usize, what: String) {
     if sh.quiet {
@@ -78,7 +92,7 @@ impl<S: Clone> Clone for Tap<S> {
         // the event comes first: the events a clone causes below appear in call order
         ev(&self.sh, self.b, format!("clone {} {}", self.id, new));
         let inner = self.inner.clone();
-        Tap { inner, b: self.b, id: new, sh: self.sh.clone() }
+        Tap { inner, b: self.b, id: new, sh: self.sh.clone(), last_pending: None }
     }
 }
 impl<S> Service<Req> for Tap<S>
@@ -95,10 +109,20 @@ where
             Poll::Ready(Err(_)) => "err",
             Poll::Pending => "pending",
         };
+        if r.is_pending() {
+            let t = now_ns_in_case();
+            if self.last_pending == Some(t) {
+                return r;
+            }
+            self.last_pending = Some(t);
+        } else {
+            self.last_pending = None;
+        }
         ev(&self.sh, self.b, format!("poll {} {}", self.id, s));
         r
     }
     fn call(&mut self, req: Req) -> S::Future {
+        self.last_pending = None;
         ev(&self.sh, self.b, format!("call {} {}", self.id, req.tag));
         self.inner.call(req)
     }
@@ -109,7 +133,7 @@ where
     S: Service<Req, Response = Resp, Error = SErr> + Clone + Send + 'static,
     S::Future: Send + 'static,
 {
-    BoxCloneService::new(Tap { inner: svc, b, id: 0, sh: sh.clone() })
+    BoxCloneService::new(Tap { inner: svc, b, id: 0, sh: sh.clone(), last_pending: None })
 }
 
 // ------------------------------------------------------------------ the twin's inner service
@@ -120,21 +144,25 @@ struct QShared {
     next_instance: u64,
     ready_script: VecDeque<char>,
     serial: u64,
+    recover_ms: u64,
+    recover_all: bool,
+    busy_until: Option<tokio::time::Instant>,
 }
 pub struct QInner {
     shared: Arc<Mutex<QShared>>,
     ready: bool,
+    recovering: Option<Pin<Box<tokio::time::Sleep>>>,
 }
 impl QInner {
-    fn strict(script: &str) -> QInner {
-        let sh = QShared { next_instance: 1, ready_script: script.chars().collect(), serial: 0 };
-        QInner { shared: Arc::new(Mutex::new(sh)), ready: false }
+    fn strict(script: &str, recover_ms: u64, recover_all: bool) -> QInner {
+        let sh = QShared { next_instance: 1, ready_script: script.chars().collect(), serial: 0, recover_ms, recover_all, busy_until: None };
+        QInner { shared: Arc::new(Mutex::new(sh)), ready: false, recovering: None }
     }
 }
 impl Clone for QInner {
     fn clone(&self) -> QInner {
         self.shared.lock().unwrap().next_instance += 1;
-        QInner { shared: self.shared.clone(), ready: false }
+        QInner { shared: self.shared.clone(), ready: false, recovering: None }
     }
 }
 pub struct QFut {
@@ -173,7 +201,22 @@ impl Service<Req> for QInner {
     type Error = IErr;
     type Future = QFut;
     fn poll_ready(&mut self, cx: &mut Context<'_>) -> Poll<Result<(), IErr>> {
+        if let Some(s) = self.recovering.as_mut() {
+            if s.as_mut().poll(cx).is_pending() {
+                return Poll::Pending;
+            }
+            self.recovering = None;
+        }
         let mut sh = self.shared.lock().unwrap();
+        if let Some(t) = sh.busy_until {
+            if tokio::time::Instant::now() < t {
+                drop(sh);
+                let mut s = Box::pin(tokio::time::sleep_until(t));
+                let _ = s.as_mut().poll(cx);
+                self.recovering = Some(s);
+                return Poll::Pending;
+            }
+        }
         match sh.ready_script.pop_front() {
             Some('p') => {
                 cx.waker().wake_by_ref();
@@ -187,12 +230,18 @@ impl Service<Req> for QInner {
         Poll::Ready(Ok(()))
     }
     fn call(&mut self, req: Req) -> QFut {
-        let k = {
+        let (k, rec) = {
             let mut sh = self.shared.lock().unwrap();
             let k = sh.serial;
             sh.serial += 1;
-            k
+            if sh.recover_ms > 0 && sh.recover_all {
+                sh.busy_until = Some(tokio::time::Instant::now() + Duration::from_millis(sh.recover_ms));
+            }
+            (k, if sh.recover_all { 0 } else { sh.recover_ms })
         };
+        if rec > 0 {
+            self.recovering = Some(Box::pin(tokio::time::sleep(Duration::from_millis(rec))));
+        }
         let step = req.plan.lock().unwrap().pop_front().unwrap_or(Step { lat: 0, out: Out::Ok });
         self.ready = false;
         let sleep = if step.lat > 0 { Some(Box::pin(tokio::time::sleep(Duration::from_millis(step.lat)))) } else { None };
@@ -222,6 +271,153 @@ impl ListenerCounts {
     fn render(&self) -> String {
         let v: Vec<String> = self.counts.iter().map(|c| c.load(Ordering::SeqCst).to_string()).collect();
         v.join(",")
+    }
+}
+
+// ------------------------------------------------------------------ a listener that calls the service (re-entrant probe)
+
+/// "Whatever a listener does, no call's outcome changes" includes a listener that takes its time while other
+/// calls arrive, and a listener that itself uses the service. Both are exercised by ONE deterministic device: a
+/// listener of the OUTERMOST layer's completion events (`lq=<n>`: at most n times per case) drives a *probe call*
+/// through a clone of the whole stack from inside the listener — poll_ready until ready, call, one poll of the
+/// future (`now_or_never`); a probe that is not finished by then (the layer emits while holding an async lock; a
+/// spawning layer; latency) is kept and polled to completion by `manual probes` ops. It is what a call arriving
+/// on another thread while the listener runs would see, without threads. In the twin stack the same listener
+/// only notes the request and the probe is made right after the step (the poll of the caller in which the event
+/// was emitted). Oracle: the two probes' FINAL outcomes are equal (`presult <k> <outcome> twin=<outcome>`, the
+/// python monitor compares modulo the serial of the inner call) — timing is not compared, so a layer that makes
+/// the probe wait raises no alarm, one that rejects it (a resource of the finished call still held while its
+/// completion listeners run) does. Only the outermost layer probes: for the layers above the emitting one the
+/// call IS still in flight while an inner listener runs, and its time legitimately counts as call time.
+/// Probe requests are numbered from 900 (`c` and `tag`), plan `lqinner=` (default `0:ok`).
+pub struct Prober {
+    svc: Mutex<Option<BoxSvc>>,
+    budget: AtomicU64,
+    /// inside a probe (or while probes are polled): their own completion events do not probe again
+    busy: AtomicBool,
+    /// twin: the listener only notes the request; `launch_wanted` makes the probe after the step
+    deferred: bool,
+    wanted: AtomicU64,
+    next: AtomicU64,
+    plan: String,
+    quiet: bool,
+    pending: Mutex<Vec<(u64, BoxFuture<'static, String>)>>,
+    done: Mutex<Vec<(u64, String)>>,
+}
+
+fn poll_once(f: &mut BoxFuture<'static, String>) -> Poll<String> {
+    let w = Waker::from(Arc::new(Flag::new(false)));
+    let mut cx = Context::from_waker(&w);
+    let mut u = tokio::task::unconstrained(std::future::poll_fn(|cx| poll_caught(f, cx)));
+    Pin::new(&mut u).poll(&mut cx)
+}
+
+impl Prober {
+    fn new(n: u64, plan: String, quiet: bool) -> Prober {
+        Prober {
+            svc: Mutex::new(None),
+            budget: AtomicU64::new(n),
+            busy: AtomicBool::new(false),
+            deferred: quiet,
+            wanted: AtomicU64::new(0),
+            next: AtomicU64::new(0),
+            plan,
+            quiet,
+            pending: Mutex::new(Vec::new()),
+            done: Mutex::new(Vec::new()),
+        }
+    }
+    /// the handle probes are cloned from: a clone of the outermost service, taken at the first arrival
+    fn ensure_svc(&self, top: &BoxSvc) {
+        let mut g = self.svc.lock().unwrap_or_else(|e| e.into_inner());
+        if g.is_none() {
+            *g = Some(top.clone());
+        }
+    }
+    /// called by the completion listeners of the outermost layer
+    fn fire(&self) {
+        if self.busy.load(Ordering::SeqCst) {
+            return;
+        }
+        if self.budget.fetch_update(Ordering::SeqCst, Ordering::SeqCst, |b| b.checked_sub(1)).is_err() {
+            return;
+        }
+        if self.deferred {
+            self.wanted.fetch_add(1, Ordering::SeqCst);
+        } else {
+            self.launch("in-listener");
+        }
+    }
+    fn launch_wanted(&self) {
+        while self.wanted.fetch_update(Ordering::SeqCst, Ordering::SeqCst, |w| w.checked_sub(1)).is_ok() {
+            self.launch("after-step");
+        }
+    }
+    fn launch(&self, when: &str) {
+        let svc = self.svc.lock().unwrap_or_else(|e| e.into_inner()).as_ref().map(|s| s.clone());
+        let Some(mut svc) = svc else { return };
+        let k = self.next.fetch_add(1, Ordering::SeqCst);
+        self.busy.store(true, Ordering::SeqCst);
+        if !self.quiet {
+            log(format!("pstart {} {}", k, when));
+        }
+        let id = 900 + k;
+        let kv = Kv(vec![("tag".to_string(), id.to_string()), ("inner".to_string(), self.plan.clone())]);
+        let req = Req::new(id as usize, &kv);
+        let out = match drive(&mut svc, req, 1).0 {
+            Started::Done(s) => Some(s),
+            Started::Fut(mut f) => match poll_once(&mut f) {
+                Poll::Ready(s) => Some(s),
+                Poll::Pending => {
+                    self.pending.lock().unwrap_or_else(|e| e.into_inner()).push((k, f));
+                    None
+                }
+            },
+        };
+        drop(svc);
+        if let Some(s) = out {
+            self.done.lock().unwrap_or_else(|e| e.into_inner()).push((k, s));
+        }
+        self.busy.store(false, Ordering::SeqCst);
+    }
+    /// one poll of every unfinished probe
+    fn poll_pending(&self) {
+        self.busy.store(true, Ordering::SeqCst);
+        let v: Vec<(u64, BoxFuture<'static, String>)> = std::mem::take(&mut *self.pending.lock().unwrap_or_else(|e| e.into_inner()));
+        let mut keep = Vec::new();
+        for (k, mut f) in v {
+            match poll_once(&mut f) {
+                Poll::Ready(s) => {
+                    drop(f);
+                    self.done.lock().unwrap_or_else(|e| e.into_inner()).push((k, s));
+                }
+                Poll::Pending => keep.push((k, f)),
+            }
+        }
+        self.pending.lock().unwrap_or_else(|e| e.into_inner()).extend(keep);
+        self.busy.store(false, Ordering::SeqCst);
+    }
+    /// `Some(outcome)` when finished, `Some("pending")` when `all` and started, `Some("none")` when `all` and never made
+    fn outcome(&self, k: u64, all: bool) -> Option<String> {
+        if let Some((_, s)) = self.done.lock().unwrap_or_else(|e| e.into_inner()).iter().find(|(j, _)| *j == k) {
+            return Some(s.clone());
+        }
+        if !all {
+            return None;
+        }
+        Some(if k < self.next.load(Ordering::SeqCst) { "pending".into() } else { "none".into() })
+    }
+    fn made(&self) -> u64 {
+        self.next.load(Ordering::SeqCst)
+    }
+}
+
+fn firer(pr: &Option<Arc<Prober>>) -> impl Fn() + Clone + Send + Sync + 'static {
+    let p = pr.clone();
+    move || {
+        if let Some(p) = &p {
+            p.fire()
+        }
     }
 }
 
@@ -265,18 +461,29 @@ fn layer_spawns(name: &str) -> bool {
 }
 
 /// Apply layer `name` (in a non-triggering configuration unless the name says otherwise) to `inner`.
-fn apply(name: &str, inner: BoxSvc, lc: &Arc<ListenerCounts>) -> Option<BoxSvc> {
+fn apply(name: &str, inner: BoxSvc, lc: &Arc<ListenerCounts>, pr: &Option<Arc<Prober>>) -> Option<BoxSvc> {
     let l0 = lc.clone();
     let l1 = lc.clone();
     let l2 = lc.clone();
+    // completion listeners of this layer that call the service (only the outermost layer is given a prober)
+    let (f0, f1, f2) = (firer(pr), firer(pr), firer(pr));
     Some(match name {
-        "bulkhead" => {
+        // `bulkhead1`: at its limit with every call (one slot, full = rejected at once); `bulkhead1w`: one slot,
+        // a full bulkhead is waited for at most 10 ms. Only for requests that do not overlap (see gen/stack.py).
+        "bulkhead" | "bulkhead1" | "bulkhead1w" => {
             use tower_resilience_bulkhead::{BulkheadLayer, BulkheadServiceError};
-            let layer = BulkheadLayer::builder()
-                .max_concurrent_calls(100)
+            let b = BulkheadLayer::builder();
+            let b = match name {
+                "bulkhead1" => b.max_concurrent_calls(1).reject_when_full(),
+                "bulkhead1w" => b.max_concurrent_calls(1).max_wait_duration(Duration::from_millis(10)),
+                _ => b.max_concurrent_calls(100),
+            };
+            let layer = b
                 .on_call_permitted(move |_| l0.hit(0))
                 .on_call_permitted(move |_| l1.hit(1))
                 .on_call_permitted(move |_| l2.hit(2))
+                .on_call_finished(move |_| f0())
+                .on_call_failed(move |_| f1())
                 .build();
             boxed(layer.layer(inner).map_err(|e| match e {
                 BulkheadServiceError::Inner(e) => SErr(format!("bulkhead({})", e)),
@@ -305,6 +512,9 @@ fn apply(name: &str, inner: BoxSvc, lc: &Arc<ListenerCounts>) -> Option<BoxSvc> 
                 .on_call_permitted(move |_| l0.hit(0))
                 .on_call_permitted(move |_| l1.hit(1))
                 .on_call_permitted(move |_| l2.hit(2))
+                // emitted while the breaker's async lock is held: the probe waits for it
+                .on_success(move |_| f0())
+                .on_failure(move |_| f1())
                 .build();
             boxed(layer.layer_fn(inner).map_err(|e| match e {
                 CircuitBreakerError::Inner(e) => SErr(format!("circuit({})", e)),
@@ -337,6 +547,9 @@ fn apply(name: &str, inner: BoxSvc, lc: &Arc<ListenerCounts>) -> Option<BoxSvc> 
                 .on_success(move |_| l0.hit(0))
                 .on_success(move |_| l1.hit(1))
                 .on_success(move |_| l2.hit(2))
+                .on_success(move |_| f0())
+                .on_error(move |_| f1())
+                .on_timeout(move || f2())
                 .build();
             boxed(layer.layer(inner).map_err(|e| match e {
                 TimeLimiterError::Inner(e) => SErr(format!("timelimiter({})", e)),
@@ -354,6 +567,9 @@ fn apply(name: &str, inner: BoxSvc, lc: &Arc<ListenerCounts>) -> Option<BoxSvc> 
                 .on_success(move |_| l0.hit(0))
                 .on_success(move |_| l1.hit(1))
                 .on_success(move |_| l2.hit(2))
+                .on_success(move |_| f0())
+                .on_error(move |_| f1())
+                .on_ignored_error(move || f2())
                 .build();
             boxed(layer.layer(inner))
         }
@@ -380,6 +596,8 @@ fn apply(name: &str, inner: BoxSvc, lc: &Arc<ListenerCounts>) -> Option<BoxSvc> 
                 .on_event(move |_| l0.hit(0))
                 .on_event(move |_| l1.hit(1))
                 .on_event(move |_| l2.hit(2))
+                // every fallback event is emitted after the inner call has returned
+                .on_event(move |_| f0())
                 .build();
             boxed(layer.layer(inner).map_err(|e| match e {
                 FallbackError::Inner(e) => SErr(format!("fallback({})", e)),
@@ -400,6 +618,11 @@ fn apply(name: &str, inner: BoxSvc, lc: &Arc<ListenerCounts>) -> Option<BoxSvc> 
                 .on_event(FnListener::new(move |_: &HedgeEvent| l0.hit(0)))
                 .on_event(FnListener::new(move |_: &HedgeEvent| l1.hit(1)))
                 .on_event(FnListener::new(move |_: &HedgeEvent| l2.hit(2)))
+                .on_event(FnListener::new(move |e: &HedgeEvent| {
+                    if matches!(e, HedgeEvent::PrimarySucceeded { .. } | HedgeEvent::HedgeSucceeded { .. } | HedgeEvent::AllFailed { .. }) {
+                        f0()
+                    }
+                }))
                 .build();
             boxed(layer.layer(inner).map_err(|e| match e {
                 HedgeError::Inner(e) => SErr(format!("hedge({})", e)),
@@ -495,6 +718,7 @@ struct Stack {
     svc: BoxSvc,
     held: Option<BoxSvc>,
     lc: Arc<ListenerCounts>,
+    pr: Option<Arc<Prober>>,
 }
 
 /// what an `arrive` produced on one stack
@@ -529,10 +753,14 @@ impl Stack {
         let kind = kv.str("inner", "strict");
         let script = if kind == "strict" { kv.str("ready", "") } else { String::new() };
         let cl = kv.u64("cl", 2) as usize;
-        let b = if quiet { bottom(&kind, QInner::strict(&script), cl) } else { bottom(&kind, Inner::strict(&script), cl) };
+        let (rec, recall) = (kv.u64("rec", 0), kv.u64("recall", 0) == 1);
+        let b = if quiet { bottom(&kind, QInner::strict(&script, rec, recall), cl) } else { bottom(&kind, Inner::strict_rec(&script, rec, recall), cl) };
+        let lq = kv.u64("lq", 0);
+        let pr = if lq > 0 { Some(Arc::new(Prober::new(lq, kv.str("lqinner", "0:ok"), quiet))) } else { None };
+        let nobody: Option<Arc<Prober>> = None;
         let mut svc = tap(b, n, &sh);
         for (j, name) in layers.iter().enumerate().rev() {
-            svc = match apply(name, svc, &lc) {
+            svc = match apply(name, svc, &lc, if j == 0 { &pr } else { &nobody }) {
                 Some(s) => tap(s, j, &sh),
                 None => {
                     if !quiet {
@@ -542,12 +770,14 @@ impl Stack {
                 }
             };
         }
-        Stack { svc, held: None, lc }
+        Stack { svc, held: None, lc, pr }
     }
 
-    /// Drive the outermost service the way a contract-respecting caller does: poll_ready (possibly several
-    /// times) until ready, then call. A panic out of `poll_ready` / `call` is the caller's answer `panic`.
+    /// `arrive`: on a clone of the outermost service, or on the one instance the harness keeps (`how=held`)
     fn start(&mut self, c: usize, kv: &Kv) -> Started {
+        if let Some(p) = &self.pr {
+            p.ensure_svc(&self.svc);
+        }
         let req = Req::new(c, kv);
         let held = kv.str("how", "clone") == "held";
         let mut svc = if held {
@@ -558,42 +788,47 @@ impl Stack {
         } else {
             self.svc.clone()
         };
-        let want = kv.u64("polls", 1).max(1);
-        let (mut got, mut tries) = (0, 0);
-        let mut early: Option<String> = None;
-        while got < want && tries < want + 8 {
-            tries += 1;
-            match catch_unwind(AssertUnwindSafe(|| poll_ready_once(&mut svc))) {
-                Ok(Poll::Ready(Ok(()))) => got += 1,
-                Ok(Poll::Ready(Err(e))) => {
-                    early = Some(format!("readyerr:{}", e.0));
-                    break;
-                }
-                Ok(Poll::Pending) => {}
-                Err(_) => {
-                    early = Some("panic".into());
-                    break;
-                }
-            }
-        }
-        if early.is_none() && got < want {
-            early = Some("notready".into());
-        }
-        if let Some(s) = early {
-            // A caller that gives up must drop the instance: one that stays alive after a `Pending` keeps its
-            // place in the queue of a ConcurrencyLimit / Buffer and would be handed capacity nobody uses
-            // (and a failed service is discarded). The next `how=held` request starts from a fresh clone.
-            drop(svc);
-            return Started::Done(s);
-        }
-        let r = catch_unwind(AssertUnwindSafe(|| svc.call(req)));
-        if held {
+        let (r, called) = drive(&mut svc, req, kv.u64("polls", 1).max(1));
+        // A caller that gives up must drop the instance: one that stays alive after a `Pending` keeps its
+        // place in the queue of a ConcurrencyLimit / Buffer and would be handed capacity nobody uses
+        // (and a failed service is discarded). The next `how=held` request starts from a fresh clone.
+        if held && called {
             self.held = Some(svc);
         }
-        match r {
-            Ok(fut) => Started::Fut(Box::pin(async move { render(fut.await) })),
-            Err(_) => Started::Done("panic".into()),
+        r
+    }
+}
+
+/// Drive a service the way a contract-respecting caller does: poll_ready (possibly several times) until ready,
+/// then call. A panic out of `poll_ready` / `call` is the caller's answer `panic`. The flag says whether the
+/// service was called (otherwise the caller gave up and must drop the instance).
+fn drive(svc: &mut BoxSvc, req: Req, want: u64) -> (Started, bool) {
+    let (mut got, mut tries) = (0, 0);
+    let mut early: Option<String> = None;
+    while got < want && tries < want + 8 {
+        tries += 1;
+        match catch_unwind(AssertUnwindSafe(|| poll_ready_once(svc))) {
+            Ok(Poll::Ready(Ok(()))) => got += 1,
+            Ok(Poll::Ready(Err(e))) => {
+                early = Some(format!("readyerr:{}", e.0));
+                break;
+            }
+            Ok(Poll::Pending) => {}
+            Err(_) => {
+                early = Some("panic".into());
+                break;
+            }
         }
+    }
+    if early.is_none() && got < want {
+        early = Some("notready".into());
+    }
+    if let Some(s) = early {
+        return (Started::Done(s), false);
+    }
+    match catch_unwind(AssertUnwindSafe(|| svc.call(req))) {
+        Ok(fut) => (Started::Fut(Box::pin(async move { render(fut.await) })), true),
+        Err(_) => (Started::Done("panic".into()), true),
     }
 }
 
@@ -610,6 +845,8 @@ struct Pair {
     a: Option<BoxFuture<'static, String>>,
     b: Option<BoxFuture<'static, String>>,
     rb: Option<String>,
+    /// the twin's prober: probes its listeners asked for are made right after the twin's step
+    tp: Option<Arc<Prober>>,
 }
 fn poll_caught(f: &mut BoxFuture<'static, String>, cx: &mut Context<'_>) -> Poll<String> {
     match catch_unwind(AssertUnwindSafe(|| f.as_mut().poll(cx))) {
@@ -635,6 +872,9 @@ impl Future for Pair {
                 this.rb = Some(s);
             }
         }
+        if let Some(p) = &this.tp {
+            p.launch_wanted();
+        }
         match ra {
             Poll::Ready(s) => {
                 // drop both futures before the result is logged (their drop glue belongs to this step)
@@ -658,6 +898,8 @@ pub struct Adapter {
     main: Stack,
     twin: Option<Stack>,
     yields: usize,
+    /// probes whose pair of outcomes has been logged
+    reported: BTreeSet<u64>,
 }
 
 impl Adapter {
@@ -666,8 +908,21 @@ impl Adapter {
         let lp = kv.u64("lp", 0);
         let spawning = layers.iter().filter(|l| layer_spawns(l)).count() + (kv.str("inner", "strict") == "buffer") as usize;
         let main = Stack::new(kv, &layers, lp, false);
-        let twin = if lp != 0 || kv.u64("ls", 0) != 0 { Some(Stack::new(kv, &layers, 0, true)) } else { None };
-        Adapter { main, twin, yields: if spawning == 0 { 0 } else { 8 * (spawning + 1) } }
+        let twin = if lp != 0 || kv.u64("ls", 0) != 0 || kv.u64("lq", 0) != 0 { Some(Stack::new(kv, &layers, 0, true)) } else { None };
+        Adapter { main, twin, yields: if spawning == 0 { 0 } else { 8 * (spawning + 1) }, reported: BTreeSet::new() }
+    }
+    /// `presult <k> <outcome> twin=<outcome>` for every probe finished on both sides (`all`: for every probe made)
+    fn report_probes(&mut self, all: bool) {
+        let (Some(m), Some(t)) = (self.main.pr.clone(), self.twin.as_ref().and_then(|t| t.pr.clone())) else { return };
+        for k in 0..m.made().max(t.made()) {
+            if self.reported.contains(&k) {
+                continue;
+            }
+            if let (Some(a), Some(b)) = (m.outcome(k, all), t.outcome(k, all)) {
+                self.reported.insert(k);
+                log(format!("presult {} {} twin={}", k, a, b));
+            }
+        }
     }
 }
 
@@ -676,6 +931,10 @@ impl Mw for Adapter {
     fn arrive(&mut self, c: usize, kv: &Kv) -> Option<CallFut> {
         let a = self.main.start(c, kv);
         let b = self.twin.as_mut().map(|t| t.start(c, kv));
+        let tp = self.twin.as_ref().and_then(|t| t.pr.clone());
+        if let Some(p) = &tp {
+            p.launch_wanted();
+        }
         match (a, b) {
             (Started::Done(s), None) => {
                 log(format!("result {} {}", c, s));
@@ -698,15 +957,31 @@ impl Mw for Adapter {
                 log(format!("twin-mismatch {} pending {}", c, t));
                 Some(f)
             }
-            (Started::Fut(f), Some(Started::Fut(g))) => Some(Box::pin(Pair { c, a: Some(f), b: Some(g), rb: None })),
+            (Started::Fut(f), Some(Started::Fut(g))) => Some(Box::pin(Pair { c, a: Some(f), b: Some(g), rb: None, tp })),
         }
     }
     fn probe(&mut self, what: &str, _kv: &Kv) {
+        if what == "probes" {
+            // end of case: every probe made, finished or not (`pending`; `none` = not made on that side)
+            self.report_probes(true);
+        }
         if what == "listeners" {
             match &self.twin {
                 Some(t) => log(format!("probe listeners {} twin={}", self.main.lc.render(), t.lc.render())),
                 None => log(format!("probe listeners {}", self.main.lc.render())),
             }
+        }
+    }
+    /// `manual probes`: one poll of every unfinished probe call (observed stack first, then the twin)
+    fn manual(&mut self, what: &str, _kv: &Kv) {
+        if what == "probes" {
+            if let Some(p) = &self.main.pr {
+                p.poll_pending();
+            }
+            if let Some(p) = self.twin.as_ref().and_then(|t| t.pr.as_ref()) {
+                p.poll_pending();
+            }
+            self.report_probes(false);
         }
     }
     fn yields(&self) -> usize {
